@@ -236,4 +236,167 @@ theorem gapEqWB_sound : ∀ (po : Bool) (ft1 ft2 : FT), gapEqWB po ft1 ft2 = tru
       · rw [hke] at he; simp at he
       · exact he
 
+/-! ### with line comments that share their line with code
+
+The rule of such a comment writes nothing behind it, so the next token keeps the input's spaces unless its own rule
+overwrites them.  Results then agree everywhere except at a token that can keep its spacing (`keepsCur`) directly
+behind such a comment ("free" positions). -/
+
+/-- two result lists agree except at free positions -/
+def EqX : Option Kind → List (Kind × Nat) → List Nat → List Nat → Prop
+  | _, [], [], [] => True
+  | prev, (k, _) :: l, x :: r1, y :: r2 =>
+    ((prev = some (.tComment .cInlineLine) ∧ keepsCur k = true) ∨ x = y) ∧ EqX (some k) l r1 r2
+  | _, _, _, _ => False
+
+theorem spacingGo_layoutW3 (po : Bool) (l1 l2 : List (Kind × Nat)) (h : LayoutEqW2 po l1 l2)
+    (prev prevReal : Option Kind) (c1 c2 : Nat)
+    (hc : ∀ k a r, l1 = (k, a) :: r → CurEq2 k c1 c2 ∨ prev = some (.tComment .cInlineLine)) :
+    EqX prev l1 (spacingGo prev prevReal c1 l1) (spacingGo prev prevReal c2 l2) := by
+  induction h generalizing prev prevReal c1 c2 with
+  | nil => simp [spacingGo, EqX]
+  | @cons po k a b r1 r2 hab hr ih =>
+    have hce := hc k a r1 rfl
+    -- the head's final value
+    have hhead : ∀ (next : Option Kind) (n1 n2 : Option Nat),
+        (prev = some (.tComment .cInlineLine) ∧ keepsCur k = true) ∨
+        (spacingRule k prev prevReal next c1 n1).1.getD c1 = (spacingRule k prev prevReal next c2 n2).1.getD c2 := by
+      intro next n1 n2
+      have third : keepsCur k = false →
+          (spacingRule k prev prevReal next c1 n1).1.getD c1 = (spacingRule k prev prevReal next c2 n2).1.getD c2 := by
+        intro h
+        obtain ⟨v, hv⟩ := spacingRule_fst_some k prev prevReal next h
+        rw [hv, hv]; rfl
+      rcases hce with hce | hp
+      · right
+        rcases hce with h | h | h
+        · subst h
+          by_cases ho : isOtherKind k = true
+          · have : (spacingRule k prev prevReal next c1 n1).1 = (spacingRule k prev prevReal next c1 n2).1 := by
+              unfold spacingRule; split <;> first | rfl | (simp [isOtherKind] at ho)
+            rw [this]
+          · rw [spacingRule_const k prev prevReal next c1 c1 n1 n2 (by simpa using ho)]
+        · obtain ⟨hk, hm⟩ := h
+          subst hk
+          simp [spacingRule_eof, hm]
+        · exact third h
+      · by_cases hk : keepsCur k = true
+        · exact Or.inl ⟨hp, hk⟩
+        · exact Or.inr (third (by simpa using hk))
+    cases hr with
+    | nil =>
+      unfold spacingGo
+      simp only [List.head?_nil, Option.map_none]
+      exact ⟨hhead none none none, trivial⟩
+    | @cons _ k' a' b' r1' r2' hab' hr' =>
+      unfold spacingGo
+      simp only [List.head?_cons, Option.map_some]
+      refine ⟨hhead (some k') (some a') (some b'), ?_⟩
+      apply ih (some k)
+      intro k2 a2 r2' heq
+      simp only [List.cons.injEq, Prod.mk.injEq] at heq
+      obtain ⟨⟨hk2, ha2⟩, _⟩ := heq
+      subst hk2
+      by_cases hil : k = .tComment .cInlineLine
+      · exact Or.inr (by rw [hil])
+      · left
+        by_cases ho : isOtherKind k = true
+        · have e1 : (spacingRule k prev prevReal (some k') c1 (some a')).2 = some (min a' 1) := by
+            unfold spacingRule; split <;> first | rfl | (simp [isOtherKind] at ho)
+          have e2 : (spacingRule k prev prevReal (some k') c2 (some b')).2 = some (min b' 1) := by
+            unfold spacingRule; split <;> first | rfl | (simp [isOtherKind] at ho)
+          rw [e1, e2]
+          unfold nextCur CurEq2
+          by_cases he : (k' == .tEof) = true
+          · have hke : k' = .tEof := by simpa using he
+            simp only [he, if_true]
+            exact Or.inr (Or.inl ⟨hke, hab' (Or.inr hke)⟩)
+          · simp only [he]
+            by_cases hkc : keepsCur k' = true
+            · left
+              have := hab' (Or.inl ⟨ho, hkc⟩)
+              simpa using this
+            · right; right; simpa using hkc
+        · have hno : isOtherKind k = false := by simpa using ho
+          rw [spacingRule_const k prev prevReal (some k') c1 c2 (some a') (some b') hno]
+          obtain ⟨av, hav⟩ := spacingRule_after_some k prev prevReal (some k') c2 b' hil
+          rw [hav]
+          unfold nextCur CurEq2
+          by_cases he : (k' == .tEof) = true
+          · have hke : k' = .tEof := by simpa using he
+            simp only [he, if_true]
+            exact Or.inr (Or.inl ⟨hke, hab' (Or.inr hke)⟩)
+          · left; simp [he]
+
+theorem EqX.of_eq : ∀ (prev : Option Kind) (l : List (Kind × Nat)) (r : List Nat), r.length = l.length → EqX prev l r r
+  | _, [], [], _ => trivial
+  | _, [], _ :: _, h => by simp at h
+  | _, _ :: _, [], h => by simp at h
+  | prev, (k, a) :: l, x :: r, h => ⟨Or.inr rfl, EqX.of_eq (some k) l r (by simpa using h)⟩
+
+theorem EqX.trans_eq {prev : Option Kind} {l : List (Kind × Nat)} {r1 r2 r3 : List Nat}
+    (h : EqX prev l r1 r2) (e : r2 = r3) : EqX prev l r1 r3 := e ▸ h
+
+/-- positionwise reading of `EqX` -/
+theorem EqX.get : ∀ (prev : Option Kind) (l : List (Kind × Nat)) (r1 r2 : List Nat), EqX prev l r1 r2 →
+    r1.length = l.length ∧ r2.length = l.length ∧
+    ∀ (j : Nat) (x y : Nat) (p : Kind × Nat), r1[j]? = some x → r2[j]? = some y → l[j]? = some p →
+      ((if j = 0 then prev else (l[j - 1]?).map (·.1)) = some (.tComment .cInlineLine) ∧ keepsCur p.1 = true) ∨ x = y
+  | _, [], [], [], _ => ⟨rfl, rfl, fun j x y p h => by simp at h⟩
+  | _, [], [], _ :: _, h => by simp [EqX] at h
+  | _, [], _ :: _, _, h => by simp [EqX] at h
+  | _, _ :: _, [], _, h => by simp [EqX] at h
+  | _, _ :: _, _ :: _, [], h => by simp [EqX] at h
+  | prev, (k, a) :: l, x0 :: r1, y0 :: r2, h => by
+    obtain ⟨h0, hr⟩ := h
+    obtain ⟨l1, l2, hg⟩ := EqX.get (some k) l r1 r2 hr
+    refine ⟨by simp [l1], by simp [l2], ?_⟩
+    intro j x y p hx hy hp
+    cases j with
+    | zero =>
+      simp at hx hy hp
+      subst hx; subst hy; subst hp
+      simpa using h0
+    | succ j =>
+      have := hg j x y p (by simpa using hx) (by simpa using hy) (by simpa using hp)
+      cases j with
+      | zero => simpa using this
+      | succ j => simpa using this
+
+theorem spacingResult_layoutW3 (l1 l2 : List (Kind × Nat)) (h : LayoutEqW2 false l1 l2) :
+    EqX none l1 (spacingResult l1) (spacingResult l2) := by
+  cases h with
+  | nil => simp [spacingResult, EqX]
+  | @cons _ k a b r1 r2 hab hr =>
+    have key := spacingGo_layoutW3 false ((k, a) :: r1) ((k, b) :: r2) (LayoutEqW2.cons hab hr) none none a a
+      (fun _ _ _ _ => Or.inl (Or.inl rfl))
+    have e2 : (spacingGo none none a ((k, b) :: r2)).tail = (spacingGo none none b ((k, b) :: r2)).tail := by
+      cases r2 with
+      | nil => unfold spacingGo; rfl
+      | cons q r2' =>
+        obtain ⟨k', b'⟩ := q
+        unfold spacingGo
+        simp only [List.head?_cons, Option.map_some, List.tail_cons]
+        have hsnd : (spacingRule k none none (some k') a (some b')).2 = (spacingRule k none none (some k') b (some b')).2 := by
+          unfold spacingRule; split <;> rfl
+        rw [hsnd]
+    unfold spacingResult
+    simp only
+    have hne1 : ∃ x t, spacingGo none none a ((k, a) :: r1) = x :: t := by
+      unfold spacingGo; cases r1 <;> exact ⟨_, _, rfl⟩
+    have hne2 : ∃ x t, spacingGo none none b ((k, b) :: r2) = x :: t := by
+      unfold spacingGo; cases r2 <;> exact ⟨_, _, rfl⟩
+    have hne3 : ∃ x t, spacingGo none none a ((k, b) :: r2) = x :: t := by
+      unfold spacingGo; cases r2 <;> exact ⟨_, _, rfl⟩
+    obtain ⟨x1, t1, e1⟩ := hne1
+    obtain ⟨x2, t2, e2'⟩ := hne2
+    obtain ⟨x3, t3, e3⟩ := hne3
+    rw [e1, e2']
+    rw [e1, e3] at key
+    rw [e3, e2'] at e2
+    simp only [List.tail_cons] at e2
+    obtain ⟨_, hk⟩ := key
+    subst e2
+    exact ⟨Or.inr rfl, hk⟩
+
 end Pasfmt
